@@ -212,7 +212,7 @@ class TdmsSegment(object):
         return metadata
 
     def raw_data_index(self, obj):
-        if hasattr(obj, 'data'):
+        if hasattr(obj, 'data') and obj.data_type != Void:
             data_type = Int32(obj.data_type.enum_value)
             dimension = Uint32(1)
             num_values = Uint64(len(obj.data))
@@ -447,6 +447,9 @@ def object_data_size(data_type, data_values):
         except AttributeError:
             encoded_strings = data_values
         return sum(4 + len(s) for s in encoded_strings)
+
+    if len(data_values) == 0:
+        return 0
 
     return data_type.size * len(data_values)
 
